@@ -38,6 +38,61 @@ def fr(x):
     return "%d/%d" % (f.numerator, f.denominator)
 
 
+def file_level(ctx, counts):
+    """Thermocouple scalings through files, for every type, both directions and float64 / float32 / int16 raw data: the channel
+    read from the file (eagerly and lazily, twice, a window before the full read) equals the direct conversion of the same
+    numbers, repeated reads agree, and the raw data is left as it was."""
+    import io
+    from nptdms import TdmsFile, TdmsWriter, ChannelObject
+    from nptdms import scaling as sc
+    rnd = ctx.rnd
+    out = []
+    counts["file_level"] = 0
+    for code, name in CODES.items():
+        lo, hi = RANGES[name]
+        th = getattr(__import__("nptdms.thermocouples", fromlist=["x"]), "type_" + name)
+        for direction in (0, 1):
+            for dt in (np.float64, np.float32, np.int16):
+                if direction == 1:
+                    xs = np.array([rnd.uniform(max(lo, -150), min(hi, 900)) for _ in range(6)])
+                else:
+                    vlo, vhi = float(th.celsius_to_mv(np.array([float(max(lo, -150))]))[0]), float(th.celsius_to_mv(np.array([float(min(hi, 900))]))[0])
+                    xs = np.array([1000.0 * rnd.uniform(vlo, vhi) for _ in range(6)])
+                raw = xs.astype(dt)
+                expect = sc.ThermocoupleScaling(code, direction, 0xFFFFFFFF).scale(raw.astype(np.float64))
+                props = {"NI_Number_Of_Scales": np.uint32(1), "NI_Scale[0]_Scale_Type": "Thermocouple", "NI_Scale[0]_Thermocouple_Thermocouple_Type": np.uint32(code),
+                         "NI_Scale[0]_Thermocouple_Scaling_Direction": np.uint32(direction), "NI_Scale[0]_Thermocouple_Input_Source": np.uint32(0xFFFFFFFF),
+                         "NI_Scaling_Status": "unscaled"}
+                buf = io.BytesIO()
+                rp = dict(kind="file-level", type=name, direction=direction, raw_dtype=str(np.dtype(dt)), raw=[float(v) for v in raw])
+                try:
+                    with TdmsWriter(buf) as w:
+                        w.write_segment([ChannelObject("g", "c", raw, props)])
+                    f = TdmsFile.read(io.BytesIO(buf.getvalue()))
+                    ch = f["g"]["c"]
+                    before = ch.raw_data.tobytes()
+                    reads = [("read_data(1, 3)", ch.read_data(1, 3), expect[1:4]), ("[:]", ch[:], expect), ("read_data()", ch.read_data(), expect), ("[:] again", ch[:], expect)]
+                    after = ch.raw_data.tobytes()
+                    with TdmsFile.open(io.BytesIO(buf.getvalue())) as g:
+                        reads.append(("lazy [:]", g["g"]["c"][:], expect))
+                        reads.append(("lazy [:] again", g["g"]["c"][:], expect))
+                except Exception as ex:  # noqa
+                    out.append(Violation("thermocouple type %s direction %d on %s raw data through a file raised %s: %s" % (name, direction, np.dtype(dt), type(ex).__name__, str(ex)[:120]), rp))
+                    continue
+                counts["file_level"] += 1
+                if after != before:
+                    out.append(Violation("reading a thermocouple-scaled channel (type %s, direction %d, %s) modified its raw data" % (name, direction, np.dtype(dt)), rp))
+                for label, got, exp in reads:
+                    got = np.asarray(got, dtype=np.float64)
+                    if got.shape != np.asarray(exp).shape or not np.all(np.abs(got - exp) <= 1e-9 * np.maximum(1.0, np.abs(exp))):
+                        out.append(Violation("thermocouple type %s direction %d on %s raw data: %s = %s, direct conversion of the same numbers gives %s" % (
+                            name, direction, np.dtype(dt), label, list(got)[:3], list(exp)[:3]), rp))
+                        break
+            if len(out) >= 3:
+                return out
+    return out
+
+
 def run(ctx):
     ctx.nptdms()
     from nptdms import scaling as sc
@@ -112,6 +167,7 @@ def run(ctx):
         violations.append(Violation("thermocouple sweep: %s" % (json.dumps(info)[:300] if info else summary), dict(kind="sweep", failure=info, n=n, seed=ctx.seed)))
     elif p.returncode != 0:
         raise RuntimeError("tc_sweep.py infrastructure failure (%d): %s %s" % (p.returncode, p.stdout[-500:], p.stderr[-500:]))
+    violations += file_level(ctx, counts)
     return dict(violations=violations, disagreements=disagreements[:20], notes=[summary[:300]],
                 coverage=dict(evaluations=counts["model_points"] + counts["sweep_points"],
                               # measured: inputs compared through the model + boundary/neighbour evaluations that tell adjacent pieces apart
